@@ -105,6 +105,11 @@ int libwifi_bss_handle_msft_tag(struct libwifi_bss *bss, const unsigned char *ms
     struct libwifi_wpa_info wpa_info = {0};
     struct libwifi_tag_vendor_header *vendor_header = (struct libwifi_tag_vendor_header *) msft_data;
 
+    // The OUI and type must be there before the type can be looked at
+    if (msft_len < (int) sizeof(struct libwifi_tag_vendor_header)) {
+        return -EINVAL;
+    }
+
     switch (vendor_header->type) {
         case MICROSOFT_OUI_TYPE_WPA:
             if (bss->encryption_info & WEP) {
@@ -180,6 +185,11 @@ int libwifi_bss_tag_parser(struct libwifi_bss *bss, struct libwifi_tag_iterator 
                 break;
             case TAG_ELEMENT_EXTENSION:
                 extension_header = (struct libwifi_tag_extension_header *) it->tag_data;
+
+                // The extension number is only there if the element has a body
+                if (it->tag_header->tag_len < sizeof(struct libwifi_tag_extension_header)) {
+                    break;
+                }
 
                 switch (extension_header->tag_num) {
                     default:
